@@ -2,6 +2,7 @@ CONSTANTS Dags <- MCDags
   Horizon = 2
   Sched <- MCSched
   MaxFileOps = 3
+  RescanOnWatch = TRUE
   ReleaseOnError = TRUE
 SPECIFICATION Spec
 CONSTRAINT Bound
